@@ -10,8 +10,10 @@
                           without it, and whenever no such document is open, it IS fresh_view (disk w) f)
    demanded w f           what the property demands for f in world w (lists are compared up to order)
    conformant / classes   the boolean predicates on histories used as hypotheses of the guarded theorem; each class
-                          mirrors one confirmed finding (known_findings/C08.json) and is switched off by the flag of its
-                          repair (Model/Events.v `fixes`): under `deployed` no class is left, guard = conformant *)
+                          mirrors one confirmed finding (known_findings/C08.json; open_text: known_findings/C02.json) and
+                          is switched off by the flag of its repair (Model/Events.v `fixes`): under `deployed` no class
+                          is left, guard = conformant. A document may be opened with any text (action AOpenWith): when the
+                          text is not the file's, the document has unsaved edits from that moment on *)
 From Coq Require Import List NArith Bool.
 From LH Require Import Model.Diag Model.Events.
 Import ListNotations.
@@ -26,6 +28,7 @@ Definition has_syn (l : list err) : bool := existsb is_syn l.
 (* what the theorems assume of the abstract analyses (the toy analysis satisfies it: Proofs/EventsToyOk.v toy_ok) *)
 Record analysis_ok (A : analysis) : Prop := {
   ok_teqb : forall a b : text A, teqb A a b = true -> a = b;
+  ok_teqb_refl : forall a : text A, teqb A a a = true;
   ok_tempty : forall a b : text A, tempty A a = true -> tempty A b = true -> a = b;
   (* the first pass reports type 6 exactly at require sites *)
   ok_first : forall t i, In i (first A t) -> match i with Own e => etype e <> 6 | Req _ e => etype e = 6 end
@@ -67,6 +70,8 @@ Section Spec.
   Definition conf_action (w : world A) (a : action A) : bool :=
     match a with
     | ARaw _ => false
+    (* a document may be opened with ANY text (AOpenWith: a restored unsaved buffer): with the repaired didOpen - flag
+       fix_didopen - that is an unsaved edit like any other; without it, it is the finding class open_text below *)
     (* saving a buffer whose file is gone re-creates the file: a client's watcher then also reports the creation,
        which this action does not send *)
     | ASave f => ahas (disk w) f || negb (ahas (ebuf w) f)
@@ -80,7 +85,7 @@ Section Spec.
 
   Definition action_files (a : action A) : list file :=
     match a with
-    | AOpen f | AChange f _ | ASave f | AClose f => [f]
+    | AOpen f | AChange f _ | ASave f | AClose f | AOpenWith f _ => [f]
     | AWatched l => map (witem_file A) l
     | ARaw _ => []
     end.
@@ -96,6 +101,11 @@ Section Spec.
 
   (* no action of the history names a file outside the workspace directories *)
   Definition inside_only (h : list (action A)) : bool := forallb (fun a => negb (names_outside a)) h.
+
+  (* no action of the history opens a document with a text of its own (the editor discipline assumed before the didOpen
+     repair: a document is opened with the file's text, action AOpen) *)
+  Definition opens_disk_text (h : list (action A)) : bool :=
+    forallb (fun a => match a with AOpenWith _ _ => false | _ => true end) h.
 
   (* K_live_cleared (12a): a file keeps its live (unsaved-buffer) entry across the action while its saved list changes and
      the new saved map is not empty: pushAllDiagnosticsAgain overwrites the live syntax errors on the client *)
@@ -155,12 +165,25 @@ Section Spec.
     | _ => false
     end.
 
-  (* class numbers: 1 outside 2 live_cleared 3 unhidden 4 close_revert 5 watched_dirty 6 deleted_require 7 empty_shortcut *)
+  (* K_open_text (C02's finding open_text_not_disk seen from the diagnostics): a document is opened with a text that is not
+     the file's text; the unrepaired didOpen caches it and leaves the analysis and the diagnostics those of the file *)
+  Definition k_open_text (w : world A) (a : action A) : bool :=
+    negb (fix_didopen fx) &&
+    match a with
+    | AOpenWith f t => match aget (disk w) f, aget (ebuf w) f with
+                       | Some d, None => negb (teqb A d t)
+                       | _, _ => false
+                       end
+    | _ => false
+    end.
+
+  (* class numbers: 1 outside 2 live_cleared 3 unhidden 4 close_revert 5 watched_dirty 6 deleted_require 7 empty_shortcut
+     8 open_text *)
   Definition classes_step (w : world A) (a : action A) (w' : world A) : list N :=
     (if k_outside a then [1] else []) ++ (if k_live_cleared w w' then [2] else []) ++
     (if k_unhidden w w' then [3] else []) ++ (if k_close_revert w a then [4] else []) ++
     (if k_watched_dirty w a then [5] else []) ++ (if k_stale_ref w' then [6] else []) ++
-    (if k_empty_shortcut w a then [7] else []).
+    (if k_empty_shortcut w a then [7] else []) ++ (if k_open_text w a then [8] else []).
 
   (* fold over the history: (all actions conformant, classes met so far) *)
   Fixpoint scan_history (cf : world A -> action A -> bool) (w : world A) (h : list (action A)) : bool * list N :=
